@@ -28,7 +28,7 @@ CHECKS = {
         category="model_checking",
         technique="stateless model checking of the real storages: threads under a cooperative scheduler (sys.monitoring line events + cooperative locks), processes at SQL-statement level over real SQLite, at syscall level over a simulated file system and at Redis-command level over fakeredis; iterative preemption bounding, state caching for the file system part; brute-force linearizability oracle",
         text="For every unordered pair of a 19-operation collision-forcing alphabet (incl. the deep-copying list read, with a scheduling point at every trial copy) (plus curated 2x2 and 3x1 programs) all interleavings up to the preemption bound are enumerated for (A) 2-3 real threads sharing one storage object (in-memory, journal, cached RDB, gRPC client; also two threads of one caching client next to a foreign worker with its own connection) with a scheduling point at every source line of the storage-layer file and at every lock operation, (B) processes/threads with their own connections on one SQLite file with a scheduling point at every SQL statement and commit (single-writer lock modelled, real SQLite executes), (C) processes with their own JournalStorage over one simulated journal file with a scheduling point at every syscall (both lock classes), (D) processes with their own JournalStorage over one Redis journal (fakeredis; Lua and use_cluster paths) with a scheduling point at every Redis command. Each complete history must equal, in return values and final state, some real-time-consistent sequential execution on the same backend.",
-        note="Line-granularity preemption for threads; locks replaced by cooperative ones discovered by type; bounds: threads 2 (mem) / 1 quick, 3 / 2 thorough; SQL 1 / 2; SimFS 2 / 3 with state caching; Redis journal (Lua and use_cluster paths) 2 procs, bound 2. SQLite atomicity failures are known findings (see known_findings.json).",
+        note="Line-granularity preemption for threads; locks replaced by cooperative ones discovered by type; bounds: threads 2 (mem) / 1 quick, 3 (mem) / 2 thorough; SQL 1 / 2; SimFS 2 / 3 with state caching; Redis journal (Lua and use_cluster paths) 2 procs, bound 2. SQLite atomicity failures are known findings (see known_findings.json).",
         design="3/C03",
     ),
     "C04": dict(
